@@ -102,7 +102,7 @@ class BcryptSHA256Hasher(PasswordHasher):
         ).as_str()
 
     def verify(self, hash: StrOrBytes, secret: StrOrBytes) -> bool:
-        info = inspect_phc(as_str(hash), BcryptSHA256PHCV2)
+        info = self._inspect(hash)
         if not info:
             return False
 
@@ -122,13 +122,21 @@ class BcryptSHA256Hasher(PasswordHasher):
         )
 
     def identify(self, hash: StrOrBytes) -> bool:
-        return inspect_phc(as_str(hash), BcryptSHA256PHCV2) is not None
+        return self._inspect(hash) is not None
 
     def needs_update(self, hash: StrOrBytes) -> bool:
-        info = inspect_phc(as_str(hash), BcryptSHA256PHCV2)
+        info = self._inspect(hash)
         if not info:
             return True
         return info.rounds != self._rounds
+
+    @staticmethod
+    def _inspect(hash: StrOrBytes) -> BcryptSHA256PHCV2 | None:
+        info = inspect_phc(as_str(hash), BcryptSHA256PHCV2)
+        # only version 2 over $2b$ is implemented (and is all passlib accepts)
+        if info is None or info.version_ != 2 or info.type != "2b":
+            return None
+        return info
 
     @classmethod
     def _prepare_secret(cls, secret: StrOrBytes, salt: StrOrBytes) -> bytes:
